@@ -39,6 +39,8 @@ def hint_table():
         'TSi': U.TSi, 'TSs': U.TSs, 'lTSi': list[U.TSi], 'lTSs': list[U.TSs],
         'unh_i': T.Annotated[int, Is[_pos], []], 'unh_s': T.Annotated[str, Is[_truthy], []],
         'tII': tuple[int, int], 'tIS': tuple[int, str],
+        # one user generic under different subscriptions (the subscription survives only as type-variable bindings)
+        'GLi': U.GL[int], 'GLs': U.GL[str], 'GL_': U.GL, 'Gi': U.G[int], 'Gs': U.G[str],
     }
 
 
@@ -46,7 +48,7 @@ OBJ = {
     '1': lambda: 1, 'True': lambda: True, '1.0': lambda: 1.0, "'a'": lambda: 'a', '[1]': lambda: [1], "['a']": lambda: ['a'],
     '[DupA()]': lambda: [U.DupA()], '[DupB()]': lambda: [U.DupB()], 'DupA()': lambda: U.DupA(), 'DupB()': lambda: U.DupB(),
     "{'k': DupA()}": lambda: {'k': U.DupA()}, "{'k': DupB()}": lambda: {'k': U.DupB()}, '0': lambda: 0, "(1, 'a')": lambda: (1, 'a'),
-    '(1, 1)': lambda: (1, 1), 'None': lambda: None,
+    '(1, 1)': lambda: (1, 1), 'None': lambda: None, "GL(['a'])": lambda: U.GL(['a']), 'GL([1])': lambda: U.GL([1]), 'G()': lambda: U.G(),
 }
 
 
@@ -160,6 +162,32 @@ def _fwd(fail_first):
     return tuple(out[1:] if fail_first else out), (out[0] if fail_first else None)
 
 
+def _fwd_nonhint():
+    """decorate f(x: 'Later'); bind Later to a non-hint object and call twice (both fail); rebind Later to a class; call."""
+    from beartype.roar import BeartypeCallHintViolation
+    ns = _module('c14_fwdnh_mod')
+    exec("@beartype\ndef f(x: 'Later') -> 'Later':\n    return x\n", ns)
+    fails = []
+    ns['Later'] = 3
+    for _ in range(2):
+        try:
+            ns['f'](1)
+            fails.append('returned')
+        except Exception as e:
+            fails.append(type(e).__name__)
+    exec('class Later:\n    pass\n', ns)
+    out = []
+    for arg in ('Later()', '1'):
+        try:
+            ns['f'](eval(arg, ns))
+            out.append('ok')
+        except BeartypeCallHintViolation:
+            out.append('viol')
+        except Exception as e:
+            out.append('E:' + type(e).__name__)
+    return tuple(out), tuple(fails)
+
+
 def _scope(shape, which):
     """The same source text  f(x: <shape over 'Key'>)  decorated in a closure scope where 'Key' names a different class."""
     from beartype import beartype
@@ -259,11 +287,13 @@ def build_ops(tier='thorough'):
              ('lDB', '[DupB()]'), ('lDB', '[DupA()]'), ('dDA', "{'k': DupA()}"), ('dDB', "{'k': DupB()}"), ('dDB', "{'k': DupA()}"),
              ('DA', 'DupA()'), ('DB', 'DupB()'), ('DB', 'DupA()'), ('uDA', 'DupA()'), ('uDB', 'DupB()'), ('uDB', 'DupA()'),
              ('TSi', '1'), ('TSs', "'a'"), ('TSs', '1'), ('lTSi', '[1]'), ('lTSs', "['a']"), ('lTSs', '[1]'),
-             ('unh_i', '1'), ('unh_i', '0'), ('unh_s', "'a'"), ('unh_s', '1'), ('tII', '(1, 1)'), ('tII', "(1, 'a')"), ('tIS', "(1, 'a')")]
+             ('unh_i', '1'), ('unh_i', '0'), ('unh_s', "'a'"), ('unh_s', '1'), ('tII', '(1, 1)'), ('tII', "(1, 'a')"), ('tIS', "(1, 'a')"),
+             ('GLi', 'GL([1])'), ('GLi', "GL(['a'])"), ('GLs', "GL(['a'])"), ('GLs', 'GL([1])'), ('GL_', "GL(['a'])"), ('GL_', '[1]'),
+             ('Gi', 'G()'), ('Gs', 'G()'), ('Gs', '1')]
     for h, o in pairs:
         add(f'bear({h},{o})', lambda h=h, o=o: _bear(h, o))
     for h, o in [('lDA', '[DupA()]'), ('lDB', '[DupB()]'), ('lDB', '[DupA()]'), ('LT1', '1'), ('L1T', 'True'), ('TSs', "'a'"), ('TSi', "'a'"),
-                 ('unh_i', '0'), ('U_si', '1.0'), ('uDB', 'DupB()')]:
+                 ('unh_i', '0'), ('U_si', '1.0'), ('uDB', 'DupB()'), ('GLs', "GL(['a'])"), ('GLi', "GL(['a'])")]:
         add(f'decor({h},{o})', lambda h=h, o=o: _decor(h, o))
     for a, b in [('L1', 'LT'), ('LT', 'L1'), ('TSi', 'TSs'), ('TSs', 'TSi'), ('lTSi', 'lTSs'), ('DA', 'DB'), ('lDA', 'lDB'), ('U_is', 'U_si'),
                  ('List_i', 'list_i'), ('unh_i', 'U_is'), ('L1', 'U_is'), ('tII', 'tIS')]:
@@ -272,6 +302,7 @@ def build_ops(tier='thorough'):
         add(f'theq({a},{b})', lambda a=a, b=b: _theq(a, b))
     add('fwd(fail-then-define)', lambda: _fwd(True)[0])
     add('fwd(define)', lambda: _fwd(False)[0])
+    add('fwd(nonhint-then-define)', _fwd_nonhint)
     for shape in ("'Key'", "list['Key']", "dict['Key', int]", "tuple['Key', int]", "tuple[list['Key'], list[int]]"):
         for which in 'AB':
             add(f'scope({shape},{which})', lambda s=shape, w=which: _scope(s, w))
@@ -286,7 +317,8 @@ def build_ops(tier='thorough'):
                 'bear(lDB,[DupB()])', 'bear(lDB,[DupA()])', "bear(dDB,{'k': DupB()})", 'bear(DB,DupB())', 'bear(uDB,DupB())', "bear(TSs,'a')",
                 'bear(TSs,1)', 'bear(TSi,1)', "bear(lTSs,['a'])", 'bear(unh_i,0)', "bear(unh_s,'a')", "bear(tII,(1, 'a'))",
                 'decor(lDB,[DupB()])', 'decor(LT1,1)', "decor(TSs,'a')", 'sub(L1,LT)', 'sub(TSi,TSs)', 'sub(TSs,TSi)', 'sub(lDA,lDB)', 'sub(tII,tIS)',
-                'theq(TSi,TSs)', 'theq(DA,DB)', 'theq(L1T,LT1)', 'fwd(fail-then-define)', 'fwd(define)', "scope(dict['Key', int],A)",
+                'theq(TSi,TSs)', 'theq(DA,DB)', 'theq(L1T,LT1)', 'fwd(fail-then-define)', 'fwd(define)', 'fwd(nonhint-then-define)',
+                'bear(GLi,GL([1]))', "bear(GLs,GL(['a']))", 'bear(GLs,GL([1]))', "bear(GL_,GL(['a']))", 'bear(Gs,G())', "scope(dict['Key', int],A)",
                 "scope(dict['Key', int],B)", "scope(tuple[list['Key'], list[int]],A)", "scope(tuple[list['Key'], list[int]],B)",
                 "scope('Key',A)", "scope('Key',B)", 'redefine(1)', 'redefine(2)', 'gc-reuse', 'clear_caches'}
         missing = keep - {n for n, _ in ops}
@@ -310,7 +342,7 @@ def classify(hs):
     last, before = hs[-1], hs[:-1]
     if last == 'gc-reuse':
         return 'history-dependent:id-reuse-after-gc:TypeHint-over-unhashable-hint'
-    if last.startswith('fwd(') and any(b.startswith('fwd(') for b in before):
+    if last.startswith('fwd(') and any(b.startswith('fwd(') for b in before) and not any('nonhint' in x for x in hs):
         return 'history-dependent:forward-reference-to-a-redefined-same-named-class'
     side = _dup_side(last)
     if side and last.startswith(('bear(', 'decor(')) and any(_dup_side(b) not in (None, side) and b.startswith(('bear(', 'decor(')) for b in before):
@@ -369,6 +401,10 @@ def run(ctx):
     if fresh[i1] != fresh[i2]:
         ctx.violation('fwdref-remembered-as-failing', f'after an unresolved call, defining the class gives {fresh[i1]}; without the failed call {fresh[i2]}',
                       {'history': ['fwd(fail-then-define)']})
+    i3 = names.index('fwd(nonhint-then-define)')
+    if fresh[i3][0] != fresh[i2] or len(set(fresh[i3][1])) != 1:
+        ctx.violation('fwdref-to-non-hint-remembered', f'a reference first bound to a non-hint object: the two failing calls raised {fresh[i3][1]} (must be identical); '
+                      f'after rebinding it to a class the calls gave {fresh[i3][0]}, a never-failed reference gives {fresh[i2]}', {'history': ['fwd(nonhint-then-define)']})
     ndiff = 0
     outcomes = set()
     for hist, obs in nodes:
